@@ -289,6 +289,32 @@ func c13RawInputs(rng *rand.Rand, n int) []hostileInput {
 		add("stream-aggregate", agg+"\r\n$4\r\nPING\r\n")
 		add("stream-aggregate", agg+"\r\n;3\r\nabc\r\n")
 	}
+	// every RESP3 value as a set member, a map key, a map value and an attribute key, in sized and streamed containers,
+	// as an argument of a command and as a frame of its own (containers index their members: not every value can be one)
+	{
+		values := map[string]string{"blob": "$1\r\na\r\n", "simple": "+x\r\n", "error": "-ERR x\r\n", "int": ":1\r\n", "null": "_\r\n", "double": ",1.5\r\n", "nan": ",nan\r\n", "bool": "#t\r\n", "bignum": "(12345678901234567890\r\n",
+			"bloberr": "!5\r\nERR x\r\n", "verbatim": "=5\r\ntxt:a\r\n", "array": "*1\r\n+x\r\n", "empty-array": "*0\r\n", "map": "%1\r\n+k\r\n+v\r\n", "set": "~1\r\n+x\r\n", "push": ">1\r\n+x\r\n", "empty-push": ">0\r\n",
+			"attr": "|1\r\n+k\r\n+v\r\n+x\r\n", "null-array": "*-1\r\n", "null-blob": "$-1\r\n", "streamed-blob": "$?\r\n;1\r\na\r\n;0\r\n", "streamed-array": "*?\r\n+x\r\n.\r\n", "nested-push": "*1\r\n>1\r\n+x\r\n"}
+		for name, v := range values {
+			shapes := map[string]string{
+				"set-member":           "~1\r\n" + v,
+				"set-member-twice":     "~2\r\n" + v + v,
+				"streamed-set-member":  "~?\r\n" + v + ".\r\n",
+				"map-key":              "%1\r\n" + v + "+v\r\n",
+				"map-key-twice":        "%2\r\n" + v + "+v\r\n" + v + "+w\r\n",
+				"map-value":            "%1\r\n+k\r\n" + v,
+				"streamed-map-key":     "%?\r\n" + v + "+v\r\n.\r\n",
+				"attribute-key":        "|1\r\n" + v + "+v\r\n+x\r\n",
+				"streamed-attribute":   "|?\r\n" + v + "+v\r\n.\r\n+x\r\n",
+				"push-element":         ">2\r\n+pubsub\r\n" + v,
+			}
+			for shape, frame := range shapes {
+				add("nested-"+shape+"/"+name, "*2\r\n$4\r\nECHO\r\n"+frame)
+				add("nested-"+shape+"/"+name, frame)
+				add("nested-"+shape+"/"+name, "*1\r\n"+frame)
+			}
+		}
+	}
 	add("stream-terminator-alone", ".\r\n")
 	add("stream-chunk-alone", ";3\r\nabc\r\n")
 	for _, t := range []string{"*", "$", "~", "%", "|", ">", "=", "!", "(", ",", "#", "_", ":", "+", "-"} {
